@@ -136,19 +136,29 @@ def step (cfg : Cfg) (s : St) : Step → St
 
 def run (cfg : Cfg) (s : St) (steps : List Step) : St := steps.foldl (step cfg) s
 
-/-- the schedule the correspondence harness realises: creator 0 is parked at `point` inside its
-CreateFamily, creator 1 is started and runs as far as the locks let it, then 0 continues, then 1. -/
+/-- the schedule the correspondence harness realises: both creators miss in the read-locked lookup and stand
+before `s.rwMutex.Lock()`; creator 0 runs up to `point` (a file-system seam inside / after the region),
+creator 1 runs as far as the lock lets it, then 0 continues, then 1. -/
 def raceSchedule (cfg : Cfg) (nm : Nat) (point : String) : List Step :=
   if cfg.held then [.fast 0 nm, .fast 1 nm, .region 0, .region 1]
-  else if point = "pre-mkfam" then [.fast 0 nm, .region 0, .fast 1 nm, .region 1, .openS 1, .publish 1, .openS 0, .publish 0]
-  else [.fast 0 nm, .region 0, .openS 0, .fast 1 nm, .region 1, .openS 1, .publish 1, .publish 0]
+  else if point = "pre-mkfam" then [.fast 0 nm, .fast 1 nm, .region 0, .region 1, .openS 1, .publish 1, .openS 0, .publish 0]
+  else [.fast 0 nm, .fast 1 nm, .region 0, .openS 0, .region 1, .openS 1, .publish 1, .publish 0]
 
-/-- what the harness observes of a race: the ids of the two handles, the id OPTIONS holds, how many
-distinct family objects were handed out -/
+/-- what the harness observes of a race: the ids of the handles creators 0 and 1 got, the id OPTIONS holds,
+how many distinct family objects were handed out -/
 def raceObs (s : St) (nm : Nat) : String :=
-  let hs := (s.opened.filter (fun e => e.1 = nm)).map (·.2)
-  let ids := hs.map (fun h => toString h.id)
-  let objs := (hs.map (·.hid)).eraseDups
-  s!"ids={",".intercalate ids} opts={match s.options nm with | some i => toString i | none => "-"} handles={objs.length}"
+  let idOf (t : Nat) : String := match (s.thr t).h with | some h => toString h.id | none => "-1"
+  let objs := ((s.opened.filter (fun e => e.1 = nm)).map (·.2.hid)).eraseDups
+  s!"ids={idOf 0},{idOf 1} opts={match s.options nm with | some i => toString i | none => "-1"} handles={objs.length}"
+
+/-- the witness schedule: two creators, a flusher of the object that is NOT published has table 7 open, the
+published object cleans up, the flusher commits. Output: objects handed out, is the committed table there. -/
+def witnessObs (cfg : Cfg) (nm : Nat) : String :=
+  let s := run cfg St.init (raceSchedule cfg nm "pre-mkfam")
+  let pub := match s.fams nm with | some h => h.hid | none => 0
+  let other := match (s.opened.filter (fun e => e.1 = nm && e.2.hid != pub)).head? with | some e => e.2.hid | none => pub
+  let s2 := run cfg s [.fstart other nm 7, .cleanup pub nm, .fcommit other nm 7]
+  let objs := ((s.opened.filter (fun e => e.1 = nm)).map (·.2.hid)).eraseDups
+  s!"handles={objs.length} committed-table-present={(s2.live nm).all (fun n => (s2.tables nm).contains n)}"
 
 end LinVerif.C01CF
